@@ -3,6 +3,8 @@
 IMPORTS = "From Ergo Require Import Common.Base App.Seq App.Cases.\n"
 SPEC = ["spec_clean", "spec_stop_truthful", "spec_mode_rule", "spec_term_once", "spec_start"]
 TAGS = ["cause-race", "restart-race", "rollback-busy"]
+HOLD_IMPORTS = "From Ergo Require Import Common.Base App.Seq App.Cases App.Hold App.HoldCases.\n"
+HOLD_SPEC = ["spec_hold_start", "spec_hold_clean", "spec_hold_stop", "spec_hold_term"]
 
 
 def known_tags(c, tags=TAGS):
@@ -40,6 +42,18 @@ def _conc(c, name, n, seed=None):
         c.monitor(name, out)
 
 
+def _hold(c, name, n, seed=None, corr=("corr_hold",)):
+    """histories with an application in state stopping (members held inside a handler): ApplicationStart of an
+    application whose dependency is stopping, judged at the return of the call"""
+    args = ["hold", "-n", str(n)]
+    if c.replay and seed is None:
+        args = ["hold", "-replay", c.replay]
+    env = {"VERIF_SEED": str(seed)} if seed is not None else None
+    out = c.harness("app", args, env=env, timeout=900)
+    if out:
+        c.cases(name, out, HOLD_IMPORTS, "hcase", corr=list(corr), spec=HOLD_SPEC, premise=["premise_hold"])
+
+
 def replay_kind(c):
     if not c.replay:
         return ""
@@ -48,6 +62,8 @@ def replay_kind(c):
         case = json.load(open(c.replay)).get("case") or {}
     except Exception:
         return ""
+    if case.get("hold"):
+        return "hold"
     if "ops" in case:
         return "seq"
     if "kind" in case:
@@ -62,12 +78,15 @@ def run(c):
     m = 60 if c.tier == "quick" else 1500
     if kind in ("", "seq"):
         _seq(c, "seq", n)
+    if kind in ("", "hold"):
+        _hold(c, "hold", 40 if c.tier == "quick" else 800)
     if kind in ("", "conc"):
         _conc(c, "conc", m)
     if c.broken and not c.violations and not c.replay:
         # something no longer checks: spend the extra search budget on the property monitors only
         keep = list(c.broken)
         _seq(c, "seq-search", n * 6, seed=c.seed + 7919, corr=())
+        _hold(c, "hold-search", 400 if c.tier == "quick" else 4000, seed=c.seed + 7919, corr=())
         _conc(c, "conc-search", m * 4, seed=c.seed + 7919)
         c.broken = keep + [b for b in c.broken if b not in keep]
     c.cov["rule"] = ("distinct = different Coq case term (application specs, operations, observations); non-trivial = some "
@@ -85,4 +104,9 @@ def run(c):
         "concurrent scenarios park one goroutine at a lib.VerifPoint of node/application.go (terminate, stop, and the spawn loop of "
         "start with self-terminating members / a stop call meanwhile) and judge timing-independent end states; latecause scenarios "
         "(sequential deaths with different reasons, later ones from inside a handler) are deterministic",
+        "hold histories (App/Hold.v): an application is observably 'stopping' only because members are held inside a message "
+        "handler (they do not see the exit request until released); the stop request in progress is ApplicationStopWithTimeout "
+        "with a short timeout or the mode rule; held members are not killed and do not die by themselves; member Init never "
+        "fails there; the observation of an ApplicationStart is taken at the return of the call (nothing else is in flight, a "
+        "Go monitor reports any later movement); the fuel of the dependency recursion is length specs + 1 as in App/Seq.v",
     ]
